@@ -98,7 +98,15 @@ class DagWalker(Walker):
         if expression in self.memoization:
             return self.memoization[expression]
 
-        res = self.iter_walk(expression, **kwargs)
+        try:
+            res = self.iter_walk(expression, **kwargs)
+        except BaseException:
+            # a failed walk must not leave half-processed nodes (or one-time-use
+            # results) behind: the walker is shared and will be used again
+            self.stack.clear()
+            if self.invalidate_memoization:
+                self.memoization.clear()
+            raise
 
         if self.invalidate_memoization:
             self.memoization.clear()
